@@ -119,3 +119,28 @@ Proof.
     congruence.
   - apply orb_false_iff in Q. destruct Q as [Q1 Q2]. rewrite Q1, Q2. reflexivity.
 Qed.
+
+(* Under C02's verdict the set-aside is complete: a well-formed response carries at most one TSIG record, as the last
+   record, so the additional-section bodies compared by the omission clause contain no TSIG record at all. *)
+Lemma count_zero_all_false : forall {A} (f : A -> bool) l, (count f l =? 0) = true -> forall x, In x l -> f x = false.
+Proof.
+  intros A f l H x Hin. destruct (f x) eqn:F; [|reflexivity].
+  apply Nat.eqb_eq in H. unfold count in H.
+  assert (Hx : In x (filter f l)). { apply filter_In. split; assumption. }
+  destruct (filter f l); [contradiction|discriminate].
+Qed.
+
+Theorem split_tsig_complete : forall m body ts,
+  wf_decoded m = true -> split_tsig (m_ar m) = (body, ts) ->
+  forallb (fun r => negb (is_tsig r)) body = true.
+Proof.
+  intros m body ts Hwf. unfold wf_decoded in Hwf. apply andb_true_iff in Hwf. destruct Hwf as [_ Hlast].
+  unfold split_tsig. destruct (rev (m_ar m)) as [|last before] eqn:E.
+  - intros H. inversion H; subst. assert (m_ar m = []) as ->.
+    { rewrite <- (rev_involutive (m_ar m)), E. reflexivity. } reflexivity.
+  - pose proof (count_zero_all_false _ _ Hlast) as Hb.
+    destruct (is_tsig last) eqn:T; intros H; inversion H; subst; apply forallb_forall; intros x Hx.
+    + apply in_rev in Hx. rewrite (Hb _ Hx). reflexivity.
+    + assert (Hx' : In x (rev (m_ar m))). { apply in_rev. rewrite rev_involutive. exact Hx. }
+      rewrite E in Hx'. destruct Hx' as [<-|Hx']; [rewrite T; reflexivity|]. rewrite (Hb _ Hx'). reflexivity.
+Qed.
